@@ -239,6 +239,44 @@ CI_FUNCS = [r'^_ST_PRIVATE::compare_ci\(char const\*, char const\*, unsigned lon
             r'^ST::hash_i::operator\(\)\(ST::string const&\) const$']
 
 
+def unfolded_uses(m, f, raw, depth=0):
+    """Uses of unfolded units in f: `raw` holds the value ids that carry a unit as read (the i8 loads of f, or a parameter of a helper
+    that is handed such a unit).  A unit may be passed on to a fold function, to the single-unit search (which folds it), or to a
+    library helper that itself folds that parameter before using it (followed, a few levels deep)."""
+    raw = set(raw)
+    bad = []
+    changed = True
+    while changed:
+        changed = False
+        for i in f.all_insts():
+            if i.op in ('zext', 'sext', 'trunc', 'phi', 'select') and i.id not in raw:
+                ops = [x[0] for x in i.d['inc']] if i.op == 'phi' else i.a
+                if any(o[0] == 'v' and o[1] in raw for o in ops):
+                    raw.add(i.id)
+                    changed = True
+    for i in f.all_insts():
+        uses = [o for o in (i.a if i.op != 'phi' else []) if o[0] == 'v' and o[1] in raw]
+        if not uses:
+            continue
+        if i.op in ('call', 'invoke'):
+            callee = m.dem(i.callee) if i.callee else ''
+            if callee.startswith('_ST_PRIVATE::cl_fast_lower(') or callee.startswith('_ST_PRIVATE::cl_fast_upper(') or \
+                    callee.startswith('_ST_PRIVATE::find_ci(char const*, unsigned long, char)'):
+                continue
+            g = m.func(i.callee) if i.callee and m.has(i.callee) else None
+            if g is not None and m.is_lib(g) and depth < 3:
+                sub = []
+                for k, a in enumerate(i.a):
+                    if a[0] == 'v' and a[1] in raw and k < g.nargs:
+                        sub += unfolded_uses(m, g, [k], depth + 1)
+                bad += ['%s (in %s, handed the unit at line %d)' % (b, callee.split('(')[0], i.line) for b in sub]
+                continue
+            bad.append('unfolded unit passed to %s at line %d' % (callee.split('(')[0] or 'a call', i.line))
+        elif i.op in ('icmp', 'xor', 'add', 'sub', 'mul', 'and', 'or'):
+            bad.append('unfolded unit used by `%s` at line %d' % (i.op, i.line))
+    return bad
+
+
 def taint(run, m, F):
     """Units loaded in a case-insensitive routine reach arithmetic / comparisons only through the fold."""
     n = 0
@@ -247,36 +285,8 @@ def taint(run, m, F):
         if not any(re.match(p, f.dem) for p in CI_FUNCS):
             continue
         n += 1
-        raw = set()
-        bad = []
-        for i in f.all_insts():
-            if i.op == 'load' and i.ty == 'i8':
-                raw.add(i.id)
-        # propagate through casts
-        changed = True
-        while changed:
-            changed = False
-            for i in f.all_insts():
-                if i.op in ('zext', 'sext', 'trunc', 'phi', 'select') and i.id not in raw:
-                    ops = [x[0] for x in i.d['inc']] if i.op == 'phi' else i.a
-                    if any(o[0] == 'v' and o[1] in raw for o in ops):
-                        raw.add(i.id)
-                        changed = True
-        # the needle's first unit handed to the single-unit search is folded there
-        for i in f.all_insts():
-            uses = [o for o in (i.a if i.op != 'phi' else []) if o[0] == 'v' and o[1] in raw]
-            if not uses:
-                continue
-            if i.op in ('call', 'invoke'):
-                callee = m.dem(i.callee) if i.callee else ''
-                if callee.startswith('_ST_PRIVATE::cl_fast_lower(') or callee.startswith('_ST_PRIVATE::cl_fast_upper(') or \
-                        callee.startswith('_ST_PRIVATE::find_ci(char const*, unsigned long, char)'):
-                    continue
-                bad.append('unfolded unit passed to %s at line %d' % (callee.split('(')[0] or 'a call', i.line))
-            elif i.op in ('icmp', 'xor', 'add', 'sub', 'mul', 'and', 'or', 'store'):
-                if i.op == 'store':
-                    continue
-                bad.append('unfolded unit used by `%s` at line %d' % (i.op, i.line))
+        raw = set(i.id for i in f.all_insts() if i.op == 'load' and i.ty == 'i8')
+        bad = unfolded_uses(m, f, raw)
         run.ob('R06.2', short(f.dem), not bad, bad[0] if bad else 'every unit is folded before it is compared / hashed', disc='fold discipline', loc=fn_loc(f))
     return n
 
@@ -306,9 +316,12 @@ def fold_agreement(run, m, F):
                     out.setdefault(mt.group(1), []).append(i)
         return out
     ref = set(folds_called(core))
+    for t in F.reachable_from([core.name]):
+        if m.has(t) and m.is_lib(m.func(t)) and not re.match(r'^_ST_PRIVATE::cl_fast_', m.func(t).dem):
+            ref |= set(folds_called(m.func(t)))         # the fold may sit in a helper of the core (one step of the comparison)
     if len(ref) != 1:
         run.ob('R06.8', short(core.dem), None, 'the core does not fold with exactly one of cl_fast_lower / cl_fast_upper (%s)' % sorted(ref), loc=fn_loc(core))
-        return 0
+        return 1
     ref = list(ref)[0]
     roots = [name for name in F.lib if re.match(r'^(ST::string::compare(_n|_i|_ni)?\(|ST::(less_i|equal_i)::operator\(\)|ST::buffer<.*>::compare)', m.func(name).dem)]
     n = 0
@@ -358,6 +371,9 @@ def fold_agreement(run, m, F):
         else:
             run.ob('R06.8', short(g.dem), True, 'orders after the same fold as the core (cl_fast_%s)%s' % (ref, '' if not other else '; the other fold only feeds equality tests'),
                    disc='fold of an ordering')
+    if n == 0:
+        run.ob('R06.8', 'compare family', None, 'no routine reachable from the compare family calls a fold function: not analysed')
+        n = 1
     return n
 
 
